@@ -32,7 +32,8 @@ CATALOGUES = {
         "L|A|+|B|+|2M1D1M", "L|A|+|C|+|*", "L|B|-|A|-|1M1I2M", "L|A|+|A|-|*",
         "C|A|+|B|+|1|2M",
         "P|p1|A+,B+|2M1D1M", "P|p2|B-,A-|*",
-    ], ids=["A", "B", "p1", "zz"], renames=[("A", "D"), ("A", "B")], tagedits=[("A", "xx:i:5"), ("p1", "yy:Z:a b")]),
+    ], ids=["A", "B", "p1", "zz"], renames=[("A", "D"), ("A", "B")], tagedits=[("A", "xx:i:5"), ("p1", "yy:Z:a b")],
+        validate=True),
     "gfa2": dict(version="gfa2", lines=[
         "S|a|4|ACGT", "S|b|6|*", "S|c|3|*",
         "E|e1|a+|b+|2|4$|0|2|2M", "E|e2|a+|b-|0|4$|1|5|*", "E|e3|a+|c+|1|2|1|2|*",
@@ -54,7 +55,7 @@ CATALOGUES = {
         "G|g1|a+|b-|10|*",
         "O|o1|a+ e1+ b+", "U|u1|a e1 g1", "U|u2|u1 o1",
     ], ids=["a", "b", "e1", "g1", "o1", "u1", "zz"], renames=[("a", "d"), ("e1", "u1")],
-        tagedits=[("a", "xx:i:5"), ("u1", "yy:i:9")]),
+        tagedits=[("a", "xx:i:5"), ("u1", "yy:i:9")], validate=True),
 }
 
 
@@ -84,6 +85,11 @@ CATALOGUES["ver"] = dict(version="none", lines=[
 ], ids=["A", "a"], renames=[])
 
 
+CATALOGUES["rgfa"] = dict(version="none", lines=[
+    "S|s1|*|LN:i:4|SN:Z:chr1|SO:i:0|SR:i:0", "S|s2|*|LN:i:3|SN:Z:chr1|SO:i:4|SR:i:0", "L|s1|+|s2|+|0M",
+    "S|a|3|*|SN:Z:c|SO:i:0|SR:i:0", "G|g|a+|a-|5|*", "U|u|a", "X|custom|1",
+    "H|VN:Z:2.0", "H|VN:Z:1.0", "S|s3|*", "P|p|s1+,s2+|*", "L|s2|+|s1|+|1M", "#| c",
+], ids=["s1", "a"], renames=[])
 # identifiers: collisions between record types, integer-looking names, unused_name()
 CATALOGUES["ids1"] = dict(version="gfa1", lines=[
     "S|A|*", "S|1|*", "S|3|*",
@@ -132,6 +138,8 @@ def build_ops(cat):
         ops.append(dict(k="rsl", text="", id="", id2=""))
     if cat.get("unused"):
         ops.append(dict(k="unused", text="", id="", id2=""))
+    if cat.get("validate"):
+        ops.append(dict(k="validate", text="", id="", id2=""))
     for ident, tag in cat.get("tagedits", []):
         ops.append(dict(k="settag", text="H\t" + tag, id=ident, id2=""))
         ops.append(dict(k="deltag", text="H\t" + tag, id=ident, id2=""))
@@ -200,6 +208,8 @@ def apply_op(gfapy, gfa, op, version):
     elif k == "query":
         from . import queries
         return ("answers", queries.run(gfapy, gfa, op["id"]), queries.run(gfapy, gfa, op["id"]))
+    elif k == "validate":
+        gfa.validate()
     elif k == "flush":
         gfa.process_line_queue()
     elif k == "rm":
@@ -233,7 +243,7 @@ def apply_op(gfapy, gfa, op, version):
 
 def load_entry(gfapy, op, gfa):
     """whole-document entry points; returns the new Gfa (the trace continues on it)"""
-    kw = dict(vlevel=gfa._vlevel, version=op.get("cfgversion"))
+    kw = dict(vlevel=gfa._vlevel, version=op.get("cfgversion"), dialect=gfa._dialect)
     entry = op["id"]
     texts = op["texts"]
     if entry == "list":
@@ -257,9 +267,14 @@ def replay_one(job):
     """job = dict(id, kind, cfg, ops, universe). Returns trace dict with local pool."""
     gfapy = _load_gfapy()
     cfg = job["cfg"]
+    cfg.setdefault("dialect", "standard")
     pool = project.Pool()
     ver = None if cfg["version"] == "none" else cfg["version"]
-    gfa = gfapy.Gfa(version=ver, vlevel=cfg["vlevel"])
+    try:
+        gfa = gfapy.Gfa(version=ver, vlevel=cfg["vlevel"], dialect=cfg["dialect"])
+    except gfapy.Error:
+        return None          # the configuration itself is refused: nothing to observe
+
     universe = job["universe"]
     init = project.observe(gfa, pool, universe)
     evs = []
@@ -287,7 +302,7 @@ def replay_one(job):
                     res, exc = "FOREIGN", ";".join(foreign[:4])
             elif ng is not None:
                 gfa = ng
-            if op["k"] not in ("query", "unused"):
+            if op["k"] not in ("query", "unused", "validate"):
                 answers = {}
         except Timeout:
             res, exc = "FOREIGN", "timeout"
@@ -355,7 +370,8 @@ def replay_all(jobs, procs=NCPU):
     if not jobs:
         return []
     with MPool(processes=min(procs, max(1, len(jobs) // 20 + 1))) as mp:
-        return mp.map(replay_one, jobs, chunksize=max(1, len(jobs) // (procs * 8) + 1))
+        res = mp.map(replay_one, jobs, chunksize=max(1, len(jobs) // (procs * 8) + 1))
+    return [t for t in res if t is not None]
 
 
 def write_shards(traces, wd, nshards=NCPU):
@@ -486,7 +502,7 @@ def catalog_json(catname, depth, cfgversion=None, vlevel=1, ops=None):
         if op["text"]:
             l = pool.add(abstract_input(op["text"]))
         out.append({"k": op["k"], "l": l, "id": op["id"], "id2": op["id2"], "n": op.get("n", 0)})
-    return {"cfg": {"version": ver, "vlevel": vlevel}, "pool": pool.items, "ops": out,
+    return {"cfg": {"version": ver, "vlevel": vlevel, "dialect": "standard"}, "pool": pool.items, "ops": out,
             "depth": depth}, ops
 
 
